@@ -260,7 +260,7 @@ class CaseRun:
         self.viol.append((feats, bad))
 
     def ask(self, method, params):
-        r = self.sess.request(method, params, timeout=30.0)
+        r = self.sess.request(method, params, timeout=120.0)
         self.evals += 1
         return r
 
@@ -412,7 +412,7 @@ class CaseRun:
                 locs = locations(r.get("result"))
                 if any(n != os.path.normpath(self.abspath(parts)) for (n, _, _) in locs):
                     self.bad(dict(feats, what="wrong target", query="definition"), got=[n for (n, _, _) in locs], **where)
-        r = self.sess.syntax_tree(self.abspath(parts), timeout=30.0)
+        r = self.sess.syntax_tree(self.abspath(parts), timeout=120.0)
         self.evals += 1
         self.stats["free"] += 1
         if r is None or "error" in r or not isinstance(r.get("result"), str):
@@ -474,7 +474,7 @@ def features_of_case(case):
             "own_shadows_dep": shadow, "first_opened": first_kind,
             "nested_dir": any(len(f["modname"]) > 1 for f in case["files"]),
             "test_dir": any(f["role"] == "module" and f["path"][-len(f["modname"]) - 1] == "test" for f in case["files"]),
-            "unresolved_with_decoy": any((not u["target"]) and u["decoys"] for u in case["uses"])}
+            "unresolved_with_decoy": any((not u["target"]) and u["decoys"] and fpk[tuple(u["from"])] for u in case["uses"])}
 
 
 def run_cases(out, cases, salt0, workers=8, keep_dirs=False):
